@@ -146,32 +146,47 @@ def run(ctx):
     ctx.floor("C14 loaders with a CRC block", nblocks, 4)
 
     # ---- writer
+    # what the finaliser checksums, by abstract execution of its configurations (CRC values are opaque terms that
+    # remember the byte ranges folded into them, in order - one call over the payload or chained updates alike)
+    from . import C05
+    fv = None
+    try:
+        fv, nfc = C05.finaliser_verdicts(P)
+        ctx.ob("R6.crc-write", "writer-crc-payload|%s:carquet_page_writer_finalize" % PW, P.where(P.fn("carquet_page_writer_finalize", PW).body),
+               "PageHeader.crc is the CRC of exactly the bytes stored after the header, in stored order, for every level/codec "
+               "configuration (%d configurations, abstract execution)" % nfc, fv["header-crc"] is None, fv["header-crc"] or "")
+    except (sem.Inconclusive, KeyError, AnalysisBroken) as ex:
+        ctx.inconclusive("R6.crc-write", "writer-crc-payload|%s:carquet_page_writer_finalize" % PW,
+                         P.where(P.fn("carquet_page_writer_finalize", PW).body), "abstract execution of the page finaliser",
+                         "%s: %s" % (type(ex).__name__, ex))
     fin = P.inlined(P.fn("carquet_page_writer_finalize", PW), 2)     # field/assembly helpers expanded
     cz = Canon(fin, inline=False)
     cc = fin.calls("carquet_crc32")
-    if len(cc) != 1:
+    semantic = fv is not None      # decided above (either way): the syntactic pair below is only the fallback
+    if len(cc) != 1 and not semantic:
         raise AnalysisBroken("page writer: expected one carquet_crc32 call")
-    a = [cz(x) for x in cc[0].args()]
-    apps = [c for c in fin.calls("carquet_buffer_append")
-            if any(s[0] == "member" and s[2] == "page_buffer" for s in subtrees(cz(c.args()[0])))]
-    same = any([cz(c.args()[1]), cz(c.args()[2])] == a for c in apps)
-    ctx.ob("R6.crc-write", "writer-crc-bytes|%s:carquet_page_writer_finalize" % PW, P.where(cc[0]),
-           "the writer checksums exactly the (buffer, size) it appends after the page header", same,
-           "crc over (%s, %s)" % (show(a[0]), show(a[1])))
-    # crc field written from the computed value under write_crc
-    crcvar = None
-    p = cc[0].parent
-    while p is not None and not is_assign(p) and p.k != "DeclStmt":
-        p = p.parent
-    wrote = False
-    for c in fin.calls("thrift_write_i32"):
-        t = Canon(fin)(c.args()[1])
-        if any(s[0] == "call" and s[1] == ("func", "carquet_crc32") for s in subtrees(t)) or \
-                (p is not None and is_assign(p) and any(
-                    x.k == "DeclRefExpr" and x.name == p.c[0].strip().name for x in c.args()[1].walk())):
-            wrote = True
-    ctx.ob("R6.crc-write", "writer-crc-field|%s:carquet_page_writer_finalize" % PW, P.where(cc[0]),
-           "the computed CRC is what is written to PageHeader.crc", wrote)
+    if len(cc) == 1 and not semantic:
+        a = [cz(x) for x in cc[0].args()]
+        apps = [c for c in fin.calls("carquet_buffer_append")
+                if any(s[0] == "member" and s[2] == "page_buffer" for s in subtrees(cz(c.args()[0])))]
+        same = any([cz(c.args()[1]), cz(c.args()[2])] == a for c in apps)
+        ctx.ob("R6.crc-write", "writer-crc-bytes|%s:carquet_page_writer_finalize" % PW, P.where(cc[0]),
+               "the writer checksums exactly the (buffer, size) it appends after the page header", same,
+               "crc over (%s, %s)" % (show(a[0]), show(a[1])))
+        # crc field written from the computed value under write_crc
+        crcvar = None
+        p = cc[0].parent
+        while p is not None and not is_assign(p) and p.k != "DeclStmt":
+            p = p.parent
+        wrote = False
+        for c in fin.calls("thrift_write_i32"):
+            t = Canon(fin)(c.args()[1])
+            if any(s[0] == "call" and s[1] == ("func", "carquet_crc32") for s in subtrees(t)) or \
+                    (p is not None and is_assign(p) and any(
+                        x.k == "DeclRefExpr" and x.name == p.c[0].strip().name for x in c.args()[1].walk())):
+                wrote = True
+        ctx.ob("R6.crc-write", "writer-crc-field|%s:carquet_page_writer_finalize" % PW, P.where(cc[0]),
+               "the computed CRC is what is written to PageHeader.crc", wrote)
     # default on
     init = P.fn("carquet_page_writer_create", PW)
     sets = [x for x in init.body.walk() if is_assign(x) and x.c[0].strip().k == "MemberExpr"
